@@ -28,8 +28,12 @@ pub enum Op {
     RetargetTrustedPath,
     /// registers the other device as trusted as well
     AddTrustedOther,
+    /// add_trusted_path on the other device for a file the process may write but does not own
+    /// (called with the effective uid of `nobody`): open and stat succeed, the validating touch is
+    /// refused, the call fails and must leave nothing behind
+    AddOtherRefused,
 }
-pub const OPS: [Op; 15] = [
+pub const OPS: [Op; 16] = [
     Op::AddTrusted,
     Op::ObserveTOld,
     Op::ObserveTNew,
@@ -45,6 +49,7 @@ pub const OPS: [Op; 15] = [
     Op::TouchTOld,
     Op::RetargetTrustedPath,
     Op::AddTrustedOther,
+    Op::AddOtherRefused,
 ];
 
 pub fn render(h: &[Op]) -> String {
@@ -97,6 +102,9 @@ impl Env {
     }
     fn u_new(&self) -> PathBuf {
         self.other_dir.join("u_new")
+    }
+    fn u_unowned(&self) -> PathBuf {
+        self.other_dir.join("u_world_writable")
     }
 }
 
@@ -169,6 +177,31 @@ pub fn child(env: &Env, history: &[Op]) -> Result<(), String> {
                     trusted_devs.push(other_dev);
                 }
             }
+            Op::AddOtherRefused => {
+                // SAFETY: plain libc calls; the child is single-threaded here
+                if unsafe { libc::geteuid() } != 0 {
+                    println!("COV refused-registration-skipped-not-root");
+                    continue;
+                }
+                if unsafe { libc::seteuid(65534) } != 0 {
+                    return Err("harness: seteuid(nobody) failed".into());
+                }
+                let r = nfs_voucher::add_trusted_path(env.u_unowned());
+                if unsafe { libc::seteuid(0) } != 0 {
+                    return Err("harness: seteuid(0) failed".into());
+                }
+                match r {
+                    Ok(()) => {
+                        // the platform let the touch through: a successful registration like any other
+                        println!("COV refused-registration-succeeded");
+                        registering = Some(env.u_unowned());
+                        if !trusted_devs.contains(&other_dev) {
+                            trusted_devs.push(other_dev);
+                        }
+                    }
+                    Err(_) => println!("COV refused-registration-failed"),
+                }
+            }
             Op::ObserveTOld => observe(&env.t_old(), &trusted_devs).map_err(|e| format!("{}: {}", step, e))?,
             Op::ObserveTNew => observe(&env.t_new(), &trusted_devs).map_err(|e| format!("{}: {}", step, e))?,
             Op::ObserveUNew => observe(&env.u_new(), &trusted_devs).map_err(|e| format!("{}: {}", step, e))?,
@@ -230,7 +263,7 @@ pub fn child(env: &Env, history: &[Op]) -> Result<(), String> {
             println!("COV base-advanced");
             // it must be the change-time of a file on a trusted device (or of the path being registered)
             let mut candidates: Vec<(PathBuf, Option<u64>)> = Vec::new();
-            for p in [env.t_old(), env.t_new(), env.u_new(), env.p_t(), env.p_u()] {
+            for p in [env.t_old(), env.t_new(), env.u_new(), env.p_t(), env.p_u(), env.u_unowned()] {
                 let on_trusted = std::fs::metadata(&p).map(|m| trusted_devs.contains(&m.dev())).unwrap_or(false);
                 if on_trusted || registering.as_deref() == Some(p.as_path()) {
                     candidates.push((p.clone(), ctime_ms(&p)));
@@ -282,6 +315,11 @@ pub fn build_env(tag: &str, swap_roles: bool) -> Result<Env, String> {
     let c1 = write_after(&env.t_old(), b"old", 0)?;
     let c2 = write_after(&env.t_new(), b"new", c1 + 2)?;
     let _c3 = write_after(&env.u_new(), b"untrusted", c2 + 2)?;
+    {
+        use std::os::unix::fs::PermissionsExt;
+        std::fs::write(env.u_unowned(), b"not ours").map_err(|e| e.to_string())?;
+        std::fs::set_permissions(env.u_unowned(), std::fs::Permissions::from_mode(0o666)).map_err(|e| e.to_string())?;
+    }
     std::thread::sleep(std::time::Duration::from_millis(12));
     if dev_of(&env.trusted_dir) == dev_of(&env.other_dir) {
         return Err("both scratch directories are on the same device".into());
